@@ -455,7 +455,9 @@ class C10(Driver):
         """check_main hands out seeds mix64(base, prop, i): the first len(enum_chunks) of them are the enumeration"""
         if self._enum_index is None:
             base = int(os.environ.get("VERIF_SEED", "1"))
-            self._enum_index = {mix64(base, self.prop, i) % (1 << 48): i for i in range(len(self.enum_chunks()))}
+            # chunk ci is handed out as seed number ci + ci // 7: every eighth plan is a random one (asm leg, splices,
+            # grafts), so that a thorough run cut short still exercises every leg
+            self._enum_index = {mix64(base, self.prop, ci + ci // 7) % (1 << 48): ci for ci in range(len(self.enum_chunks()))}
         return self._enum_index.get(seed)
 
     def enum_plan(self, ci, seed):
@@ -538,6 +540,34 @@ class C10(Driver):
             out.append({"k": "field", "b": 0, "lk": 1 if dct else j & 1, "mask": ALL_MASK if j % 3 else ALL_MASK & ~256,
                         "aseed": (f.off + j) % 997, "p": [[f.off, f.size, v.hex()]],
                         "d": "%s@%d:%r->%s" % (f.role, f.off, f.val, v.hex())})
+        if f.role == "envref.index" and "onstack" in f.ctx:
+            # a second, separate on-stack environment on the same fiber with a geometry of its own, in place of the
+            # reference to the frame's environment: it matches no frame (or a frame that already has another one)
+            e = f.ctx["onstack"]
+            a, b = f.ctx["site"]
+            j = len(out)
+            for off in sorted({e["offset"], e["offset"] - 1, e["offset"] + 1, e["offset"] + 4, 4, e["offset"] + e["length"]}):
+                for ln in sorted({e["length"], e["length"] + 1, max(0, e["length"] - 1), 1, 250}):
+                    if off <= 0:
+                        continue
+                    blob = img.enc_int(off) + img.enc_int(ln) + bytes([img.LB_REFERENCE]) + img.enc_int(e["fiber"])
+                    j += 1
+                    out.append({"k": "field", "b": 0, "lk": 1 if dct else j & 1, "mask": ALL_MASK, "aseed": (a + j) % 997,
+                                "p": [[a, b - a, blob.hex()]],
+                                "d": "envref@%d -> separate on-stack env {offset %d length %d} on fiber #%d (was %d/%d)"
+                                     % (a, off, ln, e["fiber"], e["offset"], e["length"])})
+        if f.role == "frameenv.site":
+            # the frame names, as its own environment, an on-stack environment that says it lives on another fiber
+            a, b = f.ctx["site"]
+            j = len(out)
+            for other in f.ctx["others"][:3]:
+                for off, ln in ((f.ctx["stack"], f.ctx["slots"]), (f.ctx["stack"], f.ctx["slots"] + 200), (f.ctx["stack"] + 1, f.ctx["slots"])):
+                    blob = img.enc_int(off) + img.enc_int(ln) + bytes([img.LB_REFERENCE]) + img.enc_int(other)
+                    j += 1
+                    out.append({"k": "field", "b": 0, "lk": 1 if dct else j & 1, "mask": ALL_MASK, "aseed": (a + j) % 997,
+                                "p": [[a, b - a, blob.hex()]],
+                                "d": "frame env@%d of fiber #%d -> on-stack env {offset %d length %d} of fiber #%d"
+                                     % (a, f.ctx["fiber"], off, ln, other)})
         if f.role == "func.envcount" and "envs" in f.ctx:
             # the count and the payload changed together: fewer environments with the last ones removed, one more
             # with a reference to an earlier environment / a detached empty one appended
